@@ -106,6 +106,70 @@ Fixpoint lookup_last {A} (k : string) (l : list (string * A)) : option A :=
       end
   end.
 
+(* ---------------------------------------------------------------- values as nested lists
+   Scene.to_dict, Photon.to_dict (3-D) and the backends turn every xarray object into `obj.to_dict()`: the VALUES of
+   a variable become nested Python lists; neither its dtype nor its shape is written.  On the way back numpy infers
+   both from the list: the dtype is the widest of the value class, an empty list is a float64 array, and a list
+   that is empty above its innermost level has fewer levels than the variable has dimension names and cannot be
+   converted at all (Dataset.from_dict raises). *)
+Definition list_dtype (dt : string) : string :=
+  if existsb (String.eqb dt) ["int8"; "int16"; "int32"; "int64"; "uint8"; "uint16"; "uint32"; "uint64"] then "int64"
+  else if existsb (String.eqb dt) ["float16"; "float32"; "float64"] then "float64"
+  else if existsb (String.eqb dt) ["complex64"; "complex128"] then "complex128"
+  else if existsb (String.eqb dt) ["datetime64[ns]"; "datetime64[us]"; "datetime64[ms]"; "datetime64[s]"]
+       then "datetime64[us]"
+  else dt.
+Definition unreadable : string := "!unreadable".
+Definition has_zero (sh : list Z) : bool := existsb (Z.eqb 0) sh.
+(* ndarray.tolist() nests lists down to the FIRST dimension of length 0: that much of the shape survives *)
+Fixpoint upto_zero (sh : list Z) : list Z :=
+  match sh with [] => [] | x :: r => if Z.eqb x 0 then [x] else x :: upto_zero r end.
+Definition listify_arr (a : arr) : arr :=
+  if has_zero (a_sh a) then
+    if list_eqb Z.eqb (upto_zero (a_sh a)) (a_sh a)
+    then mk_arr "float64" (a_sh a) (a_v a)          (* the only 0 is the last dimension: shape kept, dtype float64 *)
+    else mk_arr unreadable (a_sh a) (a_v a)         (* fewer list levels than dimension names: from_dict raises *)
+  else mk_arr (list_dtype (a_dt a)) (a_sh a) (a_v a).
+Definition listify_items (it : items) : items := map (fun la => (fst la, listify_arr (snd la))) it.
+Definition listify_keyed (m : keyed) : keyed := map (fun kv => (fst kv, listify_items (snd kv))) m.
+
+Definition arr_stable (a : arr) : bool := arr_eqb (listify_arr a) a && negb (String.eqb (a_dt a) unreadable).
+Definition items_stable (it : items) : bool := forallb (fun la => arr_stable (snd la)) it.
+Definition keyed_stable (m : keyed) : bool := forallb (fun kv => items_stable (snd kv)) m.
+Definition keyed_readable (m : keyed) : bool :=
+  forallb (fun kv => forallb (fun la => negb (String.eqb (a_dt (snd la)) unreadable)) (snd kv)) m.
+
+(* ---------------------------------------------------------------- group paths
+   DataTree.to_dict flattens a tree into {path: Dataset} with one entry per group (the root is "/", a descendant
+   "/a/b"); DataTree.from_dict rebuilds the tree and creates every group that is only implied by a longer path. *)
+Fixpoint anc_aux (pre s : string) : list string :=
+  match s with
+  | EmptyString => []
+  | String c r =>
+      ((if Ascii.eqb c "/"%char then match pre with EmptyString => [] | _ => [pre] end else [])
+        ++ anc_aux (pre ++ String c EmptyString) r)%list
+  end.
+Definition ancestors (p : string) : list string :=
+  if String.eqb p "/" then [] else "/" :: anc_aux "" p.
+Definition has_key {A} (k : string) (m : list (string * A)) : bool := existsb (fun kv => String.eqb k (fst kv)) m.
+Fixpoint dedup (l : list string) : list string :=
+  match l with
+  | [] => []
+  | x :: r => if existsb (String.eqb x) r then dedup r else x :: dedup r
+  end.
+Definition missing_groups (m : keyed) : list string :=
+  dedup (filter (fun a => negb (has_key a m)) (flat_map (fun kv => ancestors (fst kv)) m)).
+Definition paths_closed (m : keyed) : bool := match missing_groups m with [] => true | _ => false end.
+Definition close_paths (m : keyed) : keyed := (m ++ map (fun a => (a, [])) (missing_groups m))%list.
+
+(* what a tree (path -> group) goes through between to_dict and from_dict, with escaping a->b / b->a of its paths *)
+Definition tree_trip (a b : ascii) (m : keyed) : keyed :=
+  close_paths (map_keys (replace_char b a) (listify_keyed (map_keys (replace_char a b) m))).
+(* everything of a tree except the dtype NAMES: group paths, and per group the labelled entries (variable / coordinate
+   name + dims in order, attributes) with their shapes and values *)
+Definition keyed_skeleton (m : keyed) : list (string * list (string * list Z * list Z)) :=
+  map (fun kv => (fst kv, map (fun la => (fst la, a_sh (snd la), a_v (snd la))) (snd kv))) m.
+
 (* ---------------------------------------------------------------- tables *)
 
 Definition wentry := (string * field * esc)%type.    (* dictionary key <- container, key escaping applied *)
@@ -123,6 +187,8 @@ Record tables := mk_tables {
   t_photon_r : string * string;                 (* Photon.from_dict keys (2-D tested first, 3-D) *)
   t_photon_esc_w : esc;
   t_photon_esc_r : esc;
+  t_frame_index_kept : bool;                    (* ASDF backend: the row labels of the cluster table are stored
+                                                   next to its columns and used when the DataFrame is rebuilt *)
   t_load_rebinds_only : bool;                   (* load_detector: `detector = new_detector` *)
   t_load_assigned : list field                  (* containers of the PASSED detector assigned from the loaded one *)
 }.
@@ -182,13 +248,15 @@ Definition enc (tb : tables) (f : field) (e : esc) (o : option payload) : dval :
       match o with
       | None => DPhoton []
       | Some (PArr a) => DPhoton [(fst (t_photon_w tb), LArr a)]
-      | Some (PKeyed m) => DPhoton [(snd (t_photon_w tb), LKeyed (map_keys (apply_esc (t_photon_esc_w tb)) m))]
+      | Some (PKeyed m) => DPhoton [(snd (t_photon_w tb), LKeyed (map_keys (apply_esc (t_photon_esc_w tb)) (listify_keyed m)))]
       | Some (PFrame _ _) => DNone
       end
   | FPixel | FSignal | FImage | FPhase | FChargeArray =>
       match o with Some (PArr a) => DArr a | _ => DNone end
-  | FData | FScene =>
+  | FData =>       (* the Datasets themselves: the backend converts them (backend_conv) *)
       match o with Some (PKeyed m) => DKeyed (map_keys (apply_esc e) m) | _ => DKeyed [] end
+  | FScene =>      (* Scene.to_dict: {path: Dataset.to_dict()} *)
+      match o with Some (PKeyed m) => DKeyed (map_keys (apply_esc e) (listify_keyed m)) | _ => DKeyed [] end
   | FChargeFrame =>
       match o with Some (PFrame idx cols) => DFrame idx cols | _ => DFrame [] [] end
   end.
@@ -214,7 +282,7 @@ Definition dec (tb : tables) (f : field) (e : esc) (v : dval) : option payload :
   | FData | FScene =>
       match v with
       | DKeyed [] => None
-      | DKeyed m => Some (PKeyed (map_keys (apply_esc e) m))
+      | DKeyed m => Some (PKeyed (close_paths (map_keys (apply_esc e) m)))     (* DataTree.from_dict *)
       | _ => None
       end
   | FChargeFrame =>
@@ -245,26 +313,43 @@ Definition from_dict_as (tb : tables) (T : dkind) (pd : pdict) : detector :=
        end |}.
 
 (* Detector.from_dict: dispatch on the tag, then the class checks the tag itself (None = raises) *)
+Definition dval_readable (v : dval) : bool :=
+  match v with
+  | DKeyed m => keyed_readable m
+  | DPhoton l => forallb (fun kl => match snd kl with LKeyed m => keyed_readable m | LArr _ => true end) l
+  | _ => true
+  end.
 Definition from_dict (tb : tables) (pd : pdict) : option detector :=
   match lookup_last (p_type pd) (t_dispatch tb) with
   | None => None
-  | Some T => if String.eqb (p_type pd) (t_tag_guard tb T) then Some (from_dict_as tb T pd) else None
+  | Some T =>
+      if String.eqb (p_type pd) (t_tag_guard tb T) && forallb (fun kv => dval_readable (snd kv)) (p_data pd)
+      then Some (from_dict_as tb T pd) else None
   end.
 
 (* ---------------------------------------------------------------- the file backend (ASDF)
-   to_asdf turns the cluster table into {column: list} (orient="list": the row labels are NOT stored) and
-   from_asdf rebuilds a DataFrame from it (row labels 0..n-1); everything else passes through. *)
+   to_asdf turns the cluster table into {column: list} (orient="list": the row labels are not part of it) and
+   from_asdf rebuilds a DataFrame from it; the row labels come back iff they are stored separately and handed to the
+   DataFrame constructor (t_frame_index_kept), otherwise they are 0..n-1; the processed data goes through
+   backend_conv; everything else passes through. *)
 Fixpoint zrange_from (s : Z) (n : nat) : list Z :=
   match n with O => [] | S n' => s :: zrange_from (s + 1)%Z n' end.
 Definition nrows (cols : items) : nat :=
   match cols with [] => O | (_, a) :: _ => List.length (a_v a) end.
-Definition file_conv (v : dval) : dval :=
-  match v with DFrame _ cols => DFrame (zrange_from 0%Z (nrows cols)) cols | _ => v end.
+(* every backend: {key: Dataset.to_dict()} for the processed data (the dictionary route of the correspondence does
+   the same conversion in memory, because from_dict cannot read Dataset objects) *)
+Definition backend_conv (v : dval) : dval :=
+  match v with DKeyed m => DKeyed (listify_keyed m) | _ => v end.
+Definition file_conv (tb : tables) (v : dval) : dval :=
+  match v with
+  | DFrame idx cols => DFrame (if t_frame_index_kept tb then idx else zrange_from 0%Z (nrows cols)) cols
+  | _ => backend_conv v
+  end.
 Definition via (conv : dval -> dval) (pd : pdict) : pdict :=
   {| p_type := p_type pd; p_props := p_props pd;
      p_data := map (fun kv => (fst kv, conv (snd kv))) (p_data pd) |}.
-Definition via_dict : pdict -> pdict := via (fun v => v).
-Definition via_file : pdict -> pdict := via file_conv.
+Definition via_dict : pdict -> pdict := via backend_conv.
+Definition via_file (tb : tables) : pdict -> pdict := via (file_conv tb).
 
 (* ---------------------------------------------------------------- load_detector inside a pipeline *)
 Definition load_detector_effect (tb : tables) (running file : detector) : detector :=
@@ -283,7 +368,7 @@ Definition wf_shape (T : dkind) (f : field) (o : option payload) : Prop :=
       | FPhoton, PArr _ => True
       | FPhoton, PKeyed _ => True
       | (FPixel | FSignal | FImage | FPhase | FChargeArray), PArr _ => True
-      | (FData | FScene), PKeyed m => m <> []
+      | (FData | FScene), PKeyed m => m <> [] /\ paths_closed m = true      (* a tree has all its ancestors *)
       | FChargeFrame, PFrame idx _ => idx <> []
       | _, _ => False
       end
@@ -293,11 +378,15 @@ Definition hash : ascii := "#"%char.
 Definition slash : ascii := "/"%char.
 Definition keys_nohash (m : keyed) : bool := forallb (fun kv => negb (has_char hash (fst kv))) m.
 
+(* no '#' in a key, and every variable has a dtype / shape that survives the trip through nested lists *)
 Definition restr_dict (f : field) (o : option payload) : Prop :=
-  match o with Some (PKeyed m) => keys_nohash m = true | _ => True end.
-Definition restr_file (f : field) (o : option payload) : Prop :=
+  match o with Some (PKeyed m) => keys_nohash m = true /\ keyed_stable m = true | _ => True end.
+Definition restr_file (tb : tables) (f : field) (o : option payload) : Prop :=
   restr_dict f o /\
-  match o with Some (PFrame idx cols) => idx = zrange_from 0%Z (nrows cols) | _ => True end.
+  match o with
+  | Some (PFrame idx cols) => t_frame_index_kept tb = true \/ idx = zrange_from 0%Z (nrows cols)
+  | _ => True
+  end.
 
 (* ---------------------------------------------------------------- decidable sufficient condition *)
 Definition esc_is (e : esc) (a b : ascii) : bool :=
@@ -390,10 +479,11 @@ Definition cont_eqb (a b : detector) : bool :=
 Definition model_of (tb : tables) (c : codec_case) : option detector :=
   match c_route c with
   | RDict => from_dict tb (via_dict (to_dict tb (det_of (c_orig c))))
-  | RFile => from_dict tb (via_file (to_dict tb (det_of (c_orig c))))
-  | RLoad => match c_running c with
-             | Some r => Some (load_detector_effect tb (det_of r) (det_of (c_orig c)))
-             | None => None
+  | RFile => from_dict tb (via_file tb (to_dict tb (det_of (c_orig c))))
+  | RLoad => (* the file was written by save (to_dict + backend), load_detector reads it back and copies *)
+             match c_running c, from_dict tb (via_file tb (to_dict tb (det_of (c_orig c)))) with
+             | Some r, Some loaded => Some (load_detector_effect tb (det_of r) loaded)
+             | _, _ => None
              end
   end.
 
